@@ -46,9 +46,11 @@ structure BlockLevelAssumptions (cfg : Cfg) (codec : Codec) (crc : Checksum) : P
       (∀ b ∈ blocks, GoodBlock b) ∧
       blocks.flatten ++ (runOps cfg codec crc bs (createFile name now) ops).pending = accepted cfg true ops
 
-/-- what is NOT discharged here and stays an assumption of the block model: `0 < plen` (a lawful
-    abstract codec may encode to the empty string; snappy never does — the byte-level reader handles
-    `CompressedSize = 0` explicitly), and the tokenisation of keys/values as natural numbers. -/
+/-- what is NOT discharged here: `0 < plen` (a lawful abstract codec may encode to the empty string;
+    snappy never does — the byte-level reader handles `CompressedSize = 0` explicitly) and the
+    tokenisation of keys/values as natural numbers.  `Hv/Storage/BlockView.lean` takes both as
+    explicit hypotheses (a codec with non-empty output, an injective `tok`) and proves the refinement
+    `blockView` with agreement of the two loaders on writer-produced files. -/
 theorem blockLevelAssumptions_hold (cfg : Cfg) (hc : cfg.validatesCrc = true) (codec : Codec) (crc : Checksum) :
     BlockLevelAssumptions cfg codec crc where
   wfLength := fun es => by simp [encodeBlock, encodeBlockHeader_length]
